@@ -48,6 +48,9 @@ func runC13(c *Ctx) {
 	info := pk.TypesInfo
 	// the initial state a new subscriber of a set receives is a copy, never the live set
 	checkInitialStateIsSnapshot(r, p, pkg, "readableSet", "OnUpdate")
+	// every subscriber of the snapshot is reached by a notification loop; replace reports added = new minus OLD
+	checkNotifyLoopsVisitAll(r, p, pkg)
+	checkDiffBeforeReplace(r, p, pkg, "set", "replace")
 
 	// the subscriber registries are ds.Lists whose handles the unsubscribe closures remove (possibly
 	// twice): the list's handle validation and bookkeeping are part of what exactly-once rests on
